@@ -84,6 +84,22 @@ def run(ck, prog, ctx):
                 else:
                     new_t.append(it)
             tmpl = new_t if all(not (x[0] == "arg" and x[1].get("width") is None and "width" in x[1]) for x in new_t) else None
+        if tmpl and any(x[0] == "arg" and x[1].get("width_arg") for x in tmpl):
+            # `"HP:{:0width$}", self.inner, width = PADDED_DIGITS`: the width is the constant handed over as that argument
+            new_t = []
+            for it in tmpl:
+                if it[0] == "arg" and it[1].get("width_arg"):
+                    w = it[1]["width"]
+                    if w < len(fargs) and fargs[w][0] == "from_usize" and fargs[w][2] is not None:
+                        d2 = {k_: v_ for k_, v_ in it[1].items() if k_ != "width_arg"}
+                        d2["width"] = fargs[w][2]
+                        new_t.append(("arg", d2))
+                    else:
+                        new_t = None
+                        break
+                else:
+                    new_t.append(it)
+            tmpl = new_t
         if not tmpl:
             ck.undecided("TABLE", "display/template", "format template of Display for HpoTermId not recognised (soft idiom)", where=disp.where())
         elif tmpl[0][0] != "lit" and len(fargs) > 1:
